@@ -1005,9 +1005,12 @@ def check_reciprocal(cc: "CtorChecker", shapes=((1, 1), (1, 2), (2, 1))):
                 cons.append(("%sa%d" % (pre, i), 0, "<=", "%sb%d" % (pre, i), 0))
                 if i > 1:
                     cons.append(("%sb%d" % (pre, i - 1), 2, "<=", "%sa%d" % (pre, i), 0))
+        # eight interval ends at resolution 3 are > 300 000 order types; the branch only compares ends and adds 1,
+        # so resolution 2 decides it (an Undetermined comparison would still escalate the whole check)
+        R = cc.R if n_out + n_in <= 3 else min(cc.R, 2)
         for zero in (False, True):
             try:
-                for ot in enumerate_order_types(syms + (["0"] if zero else []), cons, cc.R):
+                for ot in enumerate_order_types(syms + (["0"] if zero else []), cons, R):
                     cfg = dict(cls=cls, directed=True, removal=True, exists=False)
 
                     def once(ch, ot=ot):
